@@ -41,6 +41,8 @@ use tokio_util::codec::{FramedRead, FramedWrite};
 use uuid::Uuid;
 
 static LOG: Mutex<Vec<Value>> = Mutex::new(Vec::new());
+/// commanders registered by the running agent instance (target node -> commander)
+static COMMANDERS: Mutex<Vec<(String, swimos_agent::commander::Commander<TestAgent>)>> = Mutex::new(Vec::new());
 
 fn log(v: Value) {
     LOG.lock().push(v);
@@ -196,10 +198,60 @@ fn instruction(context: HandlerContext<TestAgent>, ins: &str) -> Option<BoxEvent
             let rest = parts[1..].join(" ");
             context.suspend(async move { Deferred { text: rest, inner: None } }).boxed()
         }
+        // csend <node> <n> / cqueue <node> <n>: a command through a registered commander (overwritable / queued);
+        // the commander is registered the first time the target is used
+        op @ ("csend" | "cqueue") => {
+            let node = parts.get(1)?.to_string();
+            let n = num(2)?;
+            let queued = op == "cqueue";
+            let node2 = node.clone();
+            context
+                .effect(move || log(json!({"e": "sent", "node": node2, "lane": "in", "v": n, "ow": !queued, "via": "commander"})))
+                .followed_by(ViaCommander { node, n, queued, inner: None })
+                .boxed()
+        }
         "stop" => context.stop().boxed(),
         _ => return None,
     };
     Some(h)
+}
+
+/// Sends through the commander registered for the node, registering it first if there is none yet.
+struct ViaCommander {
+    node: String,
+    n: i32,
+    queued: bool,
+    inner: Option<BoxEventHandler<'static, TestAgent>>,
+}
+
+impl swimos::agent::event_handler::HandlerAction<TestAgent> for ViaCommander {
+    type Completion = ();
+    fn step(
+        &mut self,
+        action_context: &mut swimos::agent::event_handler::ActionContext<TestAgent>,
+        meta: swimos_agent::AgentMetadata,
+        context: &TestAgent,
+    ) -> swimos::agent::event_handler::StepResult<Self::Completion> {
+        if self.inner.is_none() {
+            let hc: HandlerContext<TestAgent> = HandlerContext::default();
+            let (n, queued) = (self.n, self.queued);
+            let known = COMMANDERS.lock().iter().find(|(t, _)| t == &self.node).map(|(_, c)| *c);
+            let h: BoxEventHandler<'static, TestAgent> = match known {
+                Some(c) => (if queued { c.send_queued(n) } else { c.send(n) }).boxed(),
+                None => {
+                    let node = self.node.clone();
+                    hc.create_commander(None, &self.node, "in")
+                        .and_then(move |c: swimos_agent::commander::Commander<TestAgent>| {
+                            COMMANDERS.lock().push((node, c));
+                            if queued { c.send_queued(n) } else { c.send(n) }
+                        })
+                        .boxed()
+                }
+            };
+            self.inner = Some(h);
+        }
+        self.inner.as_mut().unwrap().step(action_context, meta, context)
+    }
 }
 
 /// An instruction that is only turned into a handler when it is first stepped (the boxed handlers are not
@@ -600,6 +652,7 @@ struct Instance {
 }
 
 fn start_instance(cfg: &Value, store: &Option<RecordingStore>) -> Instance {
+    COMMANDERS.lock().clear();
     let (att_tx, att_rx) = mpsc::channel(16);
     let (http_tx, http_rx) = mpsc::channel(16);
     let (link_tx, link_rx) = mpsc::channel(16);
